@@ -158,7 +158,9 @@ func (k Keeper) AllocateTokensToStakers(ctx sdk.Context, operatorAddress sdk.Acc
 			remaining = remaining.Sub(rewardToSingleStaker)
 		}
 	}
-	feePool.CommunityPool = feePool.CommunityPool.Add(rewardToAllStakers...)
+	// only what has not been allocated to the stakers (truncation remainders, or everything
+	// if there is no staker power) goes to the community pool
+	feePool.CommunityPool = feePool.CommunityPool.Add(remaining...)
 	logger.Info("allocate tokens to stakers successfully", "allocated amount is", rewardToAllStakers.String())
 }
 
